@@ -110,7 +110,7 @@ def run(tier, rng, C):
         inv.nodes[('n.yml',)] = G.doc(cls, ['app2'], ('m', params[3:]))
         inv.universe.add('missing.cls')
         cid = C.case_id('y', i)
-        op = 'pynode S' + hx('n') if i % 5 else 'pyinv'
+        op = ('pynode S' + hx('n' if i % 13 else rng.choice(['ghost', '', 'n.yml', 'N']))) if i % 5 else 'pyinv'    # also: a name that is not a node
         cases.append({'id': cid, 'line': G.inv_line(cid, inv, op), 'show': G.show_inv(inv, op.split(' ')[0]), 'nontrivial': True,
                       'op': op.split(' ')[0]})
 
